@@ -223,18 +223,27 @@ Proof.
 Qed.
 
 (* ---------- the theorems' lemmas: order ---------- *)
-Lemma cpus1_is_map : forall {A B} (f : A -> res B) cfg cpus timeout sched (args : list A),
+(* one worker and no timeout: the in-process shortcut *)
+Lemma cpus1_is_map : forall {A B} (f : A -> res B) cfg cpus sched (args : list A),
   effective_cpus cfg cpus = 1 ->
-  parallel_function f cfg cpus timeout sched args = sequential f args.
+  parallel_function f cfg cpus None sched args = sequential f args.
 Proof.
-  intros A B f cfg cpus timeout sched args H. unfold parallel_function. rewrite H. reflexivity.
+  intros A B f cfg cpus sched args H. unfold parallel_function. rewrite H. reflexivity.
+Qed.
+
+(* with a timeout the pool is used for EVERY worker count, one included (`cpus == 1 and timeout is None`):
+   parallel_function is then the same dispatcher as parallel_execute *)
+Lemma function_timeout_is_pool : forall {A B} (f : A -> res B) cfg cpus t sched (args : list A),
+  parallel_function f cfg cpus (Some t) sched args = pool_map f (effective_cpus cfg cpus) (Some t) sched args.
+Proof.
+  intros A B f cfg cpus t sched args. unfold parallel_function. cbn [no_timeout]. rewrite andb_false_r. reflexivity.
 Qed.
 
 Lemma order_sound : forall {A B} (f : A -> res B) cfg cpus timeout sched (args : list A) out,
   parallel_function f cfg cpus timeout sched args = Ok out -> sequential f args = Ok out.
 Proof.
   intros A B f cfg cpus timeout sched args out H. unfold parallel_function in H. unfold sequential.
-  destruct (effective_cpus cfg cpus =? 1); [exact H|].
+  destruct ((effective_cpus cfg cpus =? 1) && no_timeout timeout); [exact H|].
   exact (pool_map_sound f _ timeout sched args out H).
 Qed.
 
@@ -459,16 +468,17 @@ Qed.
 
 Lemma failure_kind : forall {A B} (f : A -> res B) cfg cpus timeout sched (args : list A) e,
   parallel_function f cfg cpus timeout sched args = Err e ->
-  (e = E_Value /\ effective_cpus cfg cpus < 1) \/ (e = E_Runtime /\ timeout <> None /\ effective_cpus cfg cpus <> 1)
-  \/ (e = E_Fuel /\ effective_cpus cfg cpus <> 1) \/ exists a, In a args /\ f a = Err e.
+  (e = E_Value /\ effective_cpus cfg cpus < 1) \/ (e = E_Runtime /\ timeout <> None)
+  \/ (e = E_Fuel /\ (effective_cpus cfg cpus <> 1 \/ timeout <> None)) \/ exists a, In a args /\ f a = Err e.
 Proof.
   intros A B f cfg cpus timeout sched args e H. unfold parallel_function in H.
-  destruct (effective_cpus cfg cpus =? 1) eqn:H1.
+  destruct ((effective_cpus cfg cpus =? 1) && no_timeout timeout) eqn:H1.
   - right. right. right. exact (mapM_Err_In f args e H).
   - apply pool_map_err_kind in H. destruct H as [H|[[H H']|[H|H]]].
     + left. exact H.
-    + right. left. split; [exact H|]. split; [exact H'|lia].
-    + right. right. left. split; [exact H|lia].
+    + right. left. split; [exact H|exact H'].
+    + right. right. left. split; [exact H|].
+      destruct timeout as [t|]; [right; discriminate|left]. cbn [no_timeout] in H1. rewrite andb_true_r in H1. lia.
     + right. right. right. exact H.
 Qed.
 
@@ -483,7 +493,7 @@ Proof.
   intros A B f cfg cpus timeout sched args rs Hc Hs.
   destruct (parallel_function f cfg cpus timeout sched args) as [out|e] eqn:Hp.
   - left. apply order_sound in Hp. rewrite Hp in Hs. inversion Hs. reflexivity.
-  - apply failure_kind in Hp. destruct Hp as [[_ H]|[[H [H' _]]|[[H _]|[a [Ha Hf]]]]].
+  - apply failure_kind in Hp. destruct Hp as [[_ H]|[[H H']|[[H _]|[a [Ha Hf]]]]].
     + lia.
     + right. left. subst e. split; [reflexivity|exact H'].
     + right. right. subst e. reflexivity.
@@ -620,7 +630,8 @@ Lemma completing_schedule_exists : forall {A B} (f : A -> res B) cfg cpus (args 
   exists sched, parallel_function f cfg cpus None sched args = Ok rs.
 Proof.
   intros A B f cfg cpus args rs Hc Hs. exists (sequential_schedule (effective_cpus cfg cpus) args).
-  unfold parallel_function. destruct (effective_cpus cfg cpus =? 1); [exact Hs|].
+  unfold parallel_function. cbn [no_timeout]. rewrite andb_true_r.
+  destruct (effective_cpus cfg cpus =? 1); [exact Hs|].
   apply pool_map_completing_schedule; [exact Hc|exact Hs].
 Qed.
 
@@ -677,7 +688,7 @@ Proof.
   destruct (parallel_function (fun t => t) cfg cpus timeout sched tasks) as [out|e] eqn:Hp.
   - rewrite (order_sound _ _ _ _ _ _ _ Hp). apply list_eqb_refl.
   - destruct (sequential (fun t : res Z => t) tasks) as [rs|e0] eqn:Hs; [|reflexivity].
-    apply failure_kind in Hp. destruct Hp as [[_ H]|[[H [H' _]]|[[H _]|[a [Ha Hf]]]]].
+    apply failure_kind in Hp. destruct Hp as [[_ H]|[[H H']|[[H _]|[a [Ha Hf]]]]].
     + apply orb_true_iff. right. lia.
     + apply orb_true_iff. left. destruct timeout; [lia|contradiction].
     + subst e. contradiction.
@@ -1246,15 +1257,24 @@ Proof.
   exact (pool_map_timeout_surfaces f slow _ t sched cmds rs Hc Hr Hs Hseq).
 Qed.
 
-(* parallel_function: the same whenever the pool is used (effective cpus <> 1) *)
-Lemma function_timeout_surfaces_partial : forall {A B} (f : A -> res B) slow cfg cpus t sched (args : list A),
-  effective_cpus cfg cpus <> 1 ->
+(* parallel_function: the same for EVERY worker count, one included (with a timeout the pool is always used) *)
+Lemma function_timeout_surfaces : forall {A B} (f : A -> res B) slow cfg cpus t sched (args : list A),
   respects_durations f slow (effective_cpus cfg cpus) (Some t) sched args = true -> existsb slow args = true ->
   exists e, parallel_function f cfg cpus (Some t) sched args = Err e.
 Proof.
-  intros A B f slow cfg cpus t sched args H1 Hr Hs. unfold parallel_function.
-  destruct (effective_cpus cfg cpus =? 1) eqn:E; [lia|].
+  intros A B f slow cfg cpus t sched args Hr Hs. rewrite function_timeout_is_pool.
   exact (pool_map_timeout_is_error f slow _ t sched args Hr Hs).
+Qed.
+
+Lemma function_timeout_kind : forall {A B} (f : A -> res B) slow cfg cpus t sched (args : list A) rs,
+  1 <= effective_cpus cfg cpus ->
+  respects_durations f slow (effective_cpus cfg cpus) (Some t) sched args = true -> existsb slow args = true ->
+  sequential f args = Ok rs ->
+  parallel_function f cfg cpus (Some t) sched args = Err E_Runtime \/
+  parallel_function f cfg cpus (Some t) sched args = Err E_Fuel.
+Proof.
+  intros A B f slow cfg cpus t sched args rs Hc Hr Hs Hseq. rewrite function_timeout_is_pool.
+  exact (pool_map_timeout_surfaces f slow _ t sched args rs Hc Hr Hs Hseq).
 Qed.
 
 (* ---------- no call exceeds the timeout: under a timely schedule the timeout plays no role ---------- *)
@@ -1361,17 +1381,18 @@ Proof.
   exact (pool_map_equals_dispatch_spec f slow _ timeout sched cmds Hc Ht Htm).
 Qed.
 
-(* parallel_function: guarded - with one worker only when no call exceeds the timeout (finding C18-K2) *)
-Lemma function_equals_dispatch_spec_partial : forall {A B} (f : A -> res B) slow cfg cpus timeout sched (args : list A),
+(* parallel_function: the same, no guard (the shortcut is only taken without a timeout, where dispatch_spec is the
+   sequential run itself) *)
+Lemma function_equals_dispatch_spec : forall {A B} (f : A -> res B) slow cfg cpus timeout sched (args : list A),
   1 <= effective_cpus cfg cpus -> timeout_pos timeout = true ->
   timely f slow (effective_cpus cfg cpus) timeout sched args = true ->
-  effective_cpus cfg cpus <> 1 \/ any_exceeds slow timeout args = false ->
   parallel_function f cfg cpus timeout sched args = Err E_Fuel \/
   same_outcome (parallel_function f cfg cpus timeout sched args) (dispatch_spec f slow timeout args).
 Proof.
-  intros A B f slow cfg cpus timeout sched args Hc Ht Htm Hg. unfold parallel_function.
-  destruct (effective_cpus cfg cpus =? 1) eqn:E.
-  - destruct Hg as [Hg|Hg]; [lia|]. right. unfold dispatch_spec. rewrite Hg. unfold sequential.
+  intros A B f slow cfg cpus timeout sched args Hc Ht Htm. unfold parallel_function.
+  destruct ((effective_cpus cfg cpus =? 1) && no_timeout timeout) eqn:E.
+  - destruct timeout as [t|]; [cbn [no_timeout] in E; rewrite andb_false_r in E; discriminate|].
+    right. unfold dispatch_spec. cbn [any_exceeds]. unfold sequential.
     destruct (mapM f args); [reflexivity|exact I].
   - exact (pool_map_equals_dispatch_spec f slow _ timeout sched args Hc Ht Htm).
 Qed.
@@ -1393,6 +1414,20 @@ Proof.
   intros A B f slow cfg1 cpus1 cfg2 cpus2 timeout sched1 sched2 cmds H1 H2 Ht T1 T2 N1 N2.
   destruct (execute_equals_dispatch_spec f slow cfg1 cpus1 timeout sched1 cmds H1 Ht T1) as [F|S1]; [contradiction|].
   destruct (execute_equals_dispatch_spec f slow cfg2 cpus2 timeout sched2 cmds H2 Ht T2) as [F|S2]; [contradiction|].
+  exact (same_outcome_trans_sym _ _ _ S1 S2).
+Qed.
+
+Lemma function_workers_irrelevant : forall {A B} (f : A -> res B) slow cfg1 cpus1 cfg2 cpus2 timeout sched1 sched2 (args : list A),
+  1 <= effective_cpus cfg1 cpus1 -> 1 <= effective_cpus cfg2 cpus2 -> timeout_pos timeout = true ->
+  timely f slow (effective_cpus cfg1 cpus1) timeout sched1 args = true ->
+  timely f slow (effective_cpus cfg2 cpus2) timeout sched2 args = true ->
+  parallel_function f cfg1 cpus1 timeout sched1 args <> Err E_Fuel ->
+  parallel_function f cfg2 cpus2 timeout sched2 args <> Err E_Fuel ->
+  same_outcome (parallel_function f cfg1 cpus1 timeout sched1 args) (parallel_function f cfg2 cpus2 timeout sched2 args).
+Proof.
+  intros A B f slow cfg1 cpus1 cfg2 cpus2 timeout sched1 sched2 args H1 H2 Ht T1 T2 N1 N2.
+  destruct (function_equals_dispatch_spec f slow cfg1 cpus1 timeout sched1 args H1 Ht T1) as [F|S1]; [contradiction|].
+  destruct (function_equals_dispatch_spec f slow cfg2 cpus2 timeout sched2 args H2 Ht T2) as [F|S2]; [contradiction|].
   exact (same_outcome_trans_sym _ _ _ S1 S2).
 Qed.
 
@@ -1519,20 +1554,20 @@ Lemma execute_meets_tspec : forall cfg cpus timeout sched (jobs : list (bool * r
   tspec_ok cfg cpus timeout jobs (parallel_execute snd cfg cpus timeout sched jobs) = true.
 Proof. intros cfg cpus timeout sched jobs. unfold parallel_execute. apply pool_map_meets_tspec. Qed.
 
-Lemma function_meets_tspec_partial : forall cfg cpus timeout sched (jobs : list (bool * res Z)),
+Lemma function_meets_tspec : forall cfg cpus timeout sched (jobs : list (bool * res Z)),
   timeout_pos timeout = true ->
   timely snd fst (effective_cpus cfg cpus) timeout sched jobs = true ->
-  finding_K2 cfg cpus timeout jobs = false ->
   parallel_function snd cfg cpus timeout sched jobs <> Err E_Fuel ->
   tspec_ok cfg cpus timeout jobs (parallel_function snd cfg cpus timeout sched jobs) = true.
 Proof.
-  intros cfg cpus timeout sched jobs Ht Htm Hg. unfold parallel_function.
-  destruct (effective_cpus cfg cpus =? 1) eqn:E; [|apply pool_map_meets_tspec; assumption].
-  intros _. unfold finding_K2 in Hg. rewrite E in Hg. cbn [andb] in Hg.
+  intros cfg cpus timeout sched jobs Ht Htm. unfold parallel_function.
+  destruct ((effective_cpus cfg cpus =? 1) && no_timeout timeout) eqn:E; [|apply pool_map_meets_tspec; assumption].
+  intros _. destruct timeout as [t|]; [cbn [no_timeout] in E; rewrite andb_false_r in E; discriminate|].
+  cbn [no_timeout] in E. rewrite andb_true_r in E.
   unfold tspec_ok. destruct (effective_cpus cfg cpus <? 1) eqn:Hlt; [lia|].
-  unfold dispatch_spec, sequential in *. destruct (mapM snd jobs) as [vs|e] eqn:Hm.
-  - rewrite andb_true_r in Hg. rewrite Hg. apply list_eqb_refl.
-  - apply mapM_Err_In in Hm. destruct Hm as [a [Ha Hf]]. rewrite (raiser_exists jobs a e Ha Hf). apply orb_true_r.
+  unfold dispatch_spec, sequential. cbn [any_exceeds]. destruct (mapM snd jobs) as [vs|e] eqn:Hm.
+  - apply list_eqb_refl.
+  - cbn [andb orb]. apply mapM_Err_In in Hm. destruct Hm as [a [Ha Hf]]. exact (raiser_exists jobs a e Ha Hf).
 Qed.
 
 (* the new specification is at least as strict as the earlier one (spec_ok, which knows no durations) *)
